@@ -1187,7 +1187,7 @@ func normExpr(info *types.Info, e ast.Expr) string {
 			}
 			return x
 		case *ast.SelectorExpr:
-			return &ast.SelectorExpr{X: cp(x.X), Sel: x.Sel}
+			return &ast.SelectorExpr{X: cp(x.X), Sel: &ast.Ident{Name: astFieldName(info, x.Sel)}}
 		case *ast.IndexExpr:
 			return &ast.IndexExpr{X: cp(x.X), Index: cp(x.Index)}
 		case *ast.SliceExpr:
